@@ -313,12 +313,30 @@ func cmdCheck(args []string) int {
 			}
 			poStats := map[string]int{}
 			seenPO := map[string]bool{}
+			var poPaths []*PathResult
 			for _, p := range res.Paths {
-				if p.Outcome != "return" && p.Outcome != "done" {
-					continue
+				if p.Outcome == "return" || p.Outcome == "done" {
+					poPaths = append(poPaths, p)
 				}
+			}
+			maxPO := 150
+			if *tier == "thorough" {
+				maxPO = 5000
+			}
+			if len(poPaths) > maxPO {
+				// evenly spaced sample of the explored traces (deterministic)
+				step := float64(len(poPaths)) / float64(maxPO)
+				var sel []*PathResult
+				for i := 0; i < maxPO; i++ {
+					sel = append(sel, poPaths[int(float64(i)*step)])
+				}
+				poStats["traces_skipped"] = len(poPaths) - maxPO
+				poPaths = sel
+			}
+			for _, p := range poPaths {
 				po := NewPO(p.Events, poSolver)
 				finds := h.PO(p, po)
+				po.Close()
 				poStats["traces"]++
 				poStats["events"] += len(p.Events)
 				poStats["queries"] += po.stats.queries
